@@ -1029,6 +1029,17 @@ def tucker_cases(tier, rng):
                 yield dict(entry=("tucker" if modes is None and rng.random() < 0.5 else "partial_tucker"), shape=s, modes=modes, rank=rank, init="svd",
                            tol=rng.choice([0, 1e-5]), n_iter_max=rng.choice([0, 0, 1]),
                            seed=rng.randrange(10 ** 6), svd=rng.choice(["truncated_svd", "symeig_svd"]), fixed=None, mask=False, dtype=rng.choice(["float64", "complex128"]))
+        # the rank argument of partial_tucker as None (sizes preserved) / a single int (same rank for every listed mode)
+        for modes in (None, [n - 1, 0], [1]):
+            k = n if modes is None else len(modes)
+            listed = list(range(n)) if modes is None else modes
+            for spec in ("none", "int"):
+                if quick and rng.random() < 0.4:
+                    continue
+                r_ = rng.choice([1, 2, 4])
+                yield dict(entry="partial_tucker", shape=s, modes=modes, rank=([s[m] for m in listed] if spec == "none" else [r_] * k), rank_spec=spec,
+                           init=rng.choice(["svd", "random"]), tol=rng.choice([0, 1e-5]), n_iter_max=rng.choice([0, 1, 2]), seed=rng.randrange(10 ** 6),
+                           svd="truncated_svd", fixed=None, mask=False, dtype=rng.choice(["float64", "complex128"]))
         # (also an unsorted list of fixed modes -- for a matrix it names every mode: the initialisation is returned -- and complex data)
         for fixed in ([0], [n - 1], list(range(n - 1)), [n - 1, 0]):
             for nit in (1, 3, 0):
@@ -1167,7 +1178,8 @@ def run_tucker_case(tc, spy=None):
             out = (out[0], list(out[1]))
     else:
         with (spy if spy is not None else HooiSpy()):
-            st, out = C.call_impl(partial_tucker, X, list(tc["rank"]), timeout=60, modes=tc["modes"], init=init, **kw)
+            rank_arg = None if tc.get("rank_spec") == "none" else int(tc["rank"][0]) if tc.get("rank_spec") == "int" else list(tc["rank"])
+            st, out = C.call_impl(partial_tucker, X, rank_arg, timeout=60, modes=tc["modes"], init=init, **kw)
         if st == "ok":
             out = (out[0][0], list(out[0][1]))
     return st, out, X, fixed_in
@@ -1182,8 +1194,9 @@ def pred_tucker_case(tc, st, out, X, fixed_in):
     if len(factors) != len(modes):
         return f"{len(modes)} modes but {len(factors)} factors", "C08_tucker_shapes"
     want_core = list(s)
+    random0 = tc["init"] == "random" and tc["n_iter_max"] == 0          # the drawn core and factors are returned: I_m x rank_j, not clipped, not orthonormal
     for m, f, rk in zip(modes, factors, tc["rank"]):
-        c = min(rk, s[m])
+        c = rk if random0 else min(rk, s[m])
         if f.shape != (s[m], c):
             return f"factor of mode {m} has shape {f.shape}, expected {(s[m], c)}", "C08_tucker_shapes"
         want_core[m] = c
@@ -1198,14 +1211,14 @@ def pred_tucker_case(tc, st, out, X, fixed_in):
         return f"dtype of the result {[str(np.asarray(f).dtype) for f in factors]} / {np.asarray(core).dtype} differs from the data's {X.dtype}", "C08_tucker_dtype"
     for m, f in zip(modes, factors):
         e = orthonormal_cols(f)
-        if e > tol:
+        if e > tol and not random0:
             return f"factor of mode {m} not orthonormal (residual {e:.2e})", "C08_tucker_orthonormal"
     if tc["fixed"] is not None:
         for m in tc["fixed"]:
             if not np.array_equal(factors[m], fixed_in[m]):
                 return f"fixed factor {m} was changed", "C08_tucker_fixed_kept"
     no_sweep_user = tc["init"] == "user" and (tc["n_iter_max"] == 0 or (tc["fixed"] is not None and len(set(tc["fixed"])) >= len(s)))
-    if not tc["mask"] and not no_sweep_user:
+    if not tc["mask"] and not no_sweep_user and not random0:
         # core = projection of the data onto the RETURNED factors (with a mask the data are re-imputed: not observable; a user
         # initialisation that is returned without a sweep keeps the user's core: C08_hooi_no_sweep_returns_init)
         e = float(np.max(np.abs(project(X, factors, modes) - core))) / max(1.0, float(np.max(np.abs(X))))
@@ -1717,7 +1730,8 @@ def _all_fixed(i):
 
 # the classes "user initialisation and no sweep", "callback stop" of the CP drivers (repaired by 3de556b) and "convergence exit" /
 # "cap 0" of non_negative_tucker(_hals) / parafac2 (repaired by 1c1a684) are kept as corpus inputs (corpus/C08/normalisation_exits.json)
-# the class "SVD initialisation with svd='symeig_svd' on complex data and no sweep" (repaired by d995974) is generated on every run (tucker_cases)
+# the classes "SVD initialisation with svd='symeig_svd' on complex data and no sweep" (repaired by d995974) and "partial_tucker, random
+# initialisation, no sweep, mode subset / permuted modes" (repaired by 7b9d0bb) are generated on every run (tucker_cases)
 CLASSIFIERS = {}
 
 
@@ -1852,6 +1866,11 @@ def _run(chk, rng):
             n_ = len(tc["shape"])
             if tc["fixed"] is not None:
                 opl = f"(DTuckerFixed {C.nat_list(list(tc['shape']))} {C.nat_list(tc['rank'])} {C.nat_list(tc['fixed'])})"
+            elif tc["init"] == "random" and tc["n_iter_max"] == 0:
+                opl = f"(DPartialTuckerRandom0 {C.nat_list(list(tc['shape']))} {C.nat_list(tc['rank'])} {C.nat_list(list(range(n_)) if tc['modes'] is None else tc['modes'])})"
+            elif tc.get("rank_spec"):
+                spl = "None" if tc["rank_spec"] == "none" else f"(Some (RInt {C.nat(tc['rank'][0])}))"
+                opl = f"(DPartialTuckerSpec {C.nat_list(list(tc['shape']))} {spl} {C.nat_list(list(range(n_)) if tc['modes'] is None else tc['modes'])})"
             else:
                 opl = f"(DPartialTucker {C.nat_list(list(tc['shape']))} {C.nat_list(tc['rank'])} {C.nat_list(list(range(n_)) if tc['modes'] is None else tc['modes'])})"
             obs = [shp(out[0])] + [shp(f) for f in out[1]] if st == "ok" else None
@@ -1873,7 +1892,7 @@ def _run(chk, rng):
         cx_ = str(tc.get("dtype", "")).startswith("complex")
         no_sweep_user_ = tc["init"] == "user" and (tc["n_iter_max"] == 0 or (tc["fixed"] is not None and len(set(tc["fixed"])) >= len(tc["shape"])))
         if st == "ok" and not tc["mask"] and prod(tc["shape"]) <= (24 if cx_ else 36) and tc["seed"] % (3 if tier == "quick" else 2) == 0 \
-                and not no_sweep_user_:      # ~0.3 s of exact arithmetic each
+                and not no_sweep_user_ and not (tc["init"] == "random" and tc["n_iter_max"] == 0):      # ~0.3 s of exact arithmetic each
             qid = len(cases)
             modes_ = list(range(len(tc["shape"]))) if tc["modes"] is None else list(tc["modes"])
             cases.append(qtucker_lit(qid, X, out[0], out[1], modes_, tol_orth=(2e-3 if (tc["svd"] == "symeig_svd" and tol_for(X) > TOL) else 1e-6 if tc["svd"] == "symeig_svd" else None)))
